@@ -282,9 +282,10 @@ func worldC11(w *World) {
 				problem("close: status %d err %v", st, err)
 			}
 			time.Sleep(ss.afterClose)
-			if readPause > 0 || bigPost {
-				// a slow backend (or a slow link) needs time to take in what was accepted
-				// before the close: wait for the backend to see the end, within ten minutes
+			{
+				// a slow backend or a slow link (small socket buffers, latency, megabyte
+				// messages) needs time to take in what was accepted before the close: wait
+				// for the backend to see the end, within ten minutes
 				for i := 0; i < 1200; i++ {
 					done := false
 					wb.mu.Lock()
